@@ -98,6 +98,58 @@ func (d *dcGen) fieldTypeI(p int, depth int, self string, allowIface bool) strin
 	}
 }
 
+// dcFixedProgram: shapes worth having in every run, whatever the seed: a type with hand-written
+// methods that is also copyable by assignment, directly in every kind of slot, and wrapped in a
+// struct that is itself copyable by assignment
+func dcFixedProgram(prefix string) []dcPkg {
+	pk := dcPkg{Path: "ex.test/" + prefix + "d0", Name: "d0"}
+	pk.Doc = "// +k8s:deepcopy-gen=package\n\n// Package d0 is generated test input.\npackage d0\n"
+	pk.Src = `package d0
+
+var HandCalls int
+
+type HandA struct{ N int }
+
+func (in *HandA) DeepCopyInto(out *HandA) {
+	HandCalls++
+	*out = *in
+}
+
+func (in *HandA) DeepCopy() *HandA {
+	if in == nil {
+		return nil
+	}
+	out := new(HandA)
+	in.DeepCopyInto(out)
+	return out
+}
+
+type Direct struct {
+	F HandA
+	P *HandA
+	S []HandA
+	M map[string]HandA
+	N int
+}
+
+type Wrap struct {
+	A HandA
+	N int
+}
+
+type Nested struct {
+	W Wrap
+	P *int
+	S []Wrap
+	M map[string]Wrap
+	Q *Wrap
+}
+`
+	pk.Types = []dcType{{Name: "HandA", Kind: "handwritten", HandCopy: true}, {Name: "Direct", Kind: "struct", Generated: true},
+		{Name: "Wrap", Kind: "struct", Generated: true}, {Name: "Nested", Kind: "struct", Generated: true}}
+	return []dcPkg{pk}
+}
+
 // genDeepcopyProgram builds npk packages, package i may use types of packages < i.
 func (g *Gen) genDeepcopyProgram(prefix string, npk int, arrayRefs bool) ([]dcPkg, []string) {
 	d := &dcGen{g: g, classes: map[string]bool{}, arrayRefs: arrayRefs}
@@ -126,7 +178,16 @@ func (g *Gen) genDeepcopyProgram(prefix string, npk int, arrayRefs bool) ([]dcPk
 			b.WriteString("type Hand struct{ P *int }\n\nvar HandCalls int\n\nfunc (in *Hand) DeepCopyInto(out *Hand) {\n\tHandCalls++\n\t*out = *in\n\tif in.P != nil {\n\t\tv := *in.P\n\t\tout.P = &v\n\t}\n}\n\nfunc (in *Hand) DeepCopy() *Hand {\n\tif in == nil {\n\t\treturn nil\n\t}\n\tout := new(Hand)\n\tin.DeepCopyInto(out)\n\treturn out\n}\n\n")
 			cur.Types = append(cur.Types, dcType{Name: "Hand", Kind: "handwritten", HandCopy: true})
 			d.classes["hand-written"] = true
+			if g.Chance(0.6) {
+				// a type with hand-written deep copy functions that would also be copyable by assignment
+				b.WriteString("type HandA struct{ N int }\n\nfunc (in *HandA) DeepCopyInto(out *HandA) {\n\tHandCalls++\n\t*out = *in\n}\n\nfunc (in *HandA) DeepCopy() *HandA {\n\tif in == nil {\n\t\treturn nil\n\t}\n\tout := new(HandA)\n\tin.DeepCopyInto(out)\n\treturn out\n}\n\n")
+				cur.Types = append(cur.Types, dcType{Name: "HandA", Kind: "handwritten", HandCopy: true})
+				d.classes["hand-written-assignable"] = true
+			}
 		}
+		// in a package without the package tag: every type-level tag in a comment block of its own,
+		// separated from the doc comment by a blank line
+		detached := !pkgTag && g.Chance(0.4)
 		nt := 2 + g.R.Intn(4)
 		for k := 0; k < nt; k++ {
 			name := fmt.Sprintf("S%d", k)
@@ -153,6 +214,10 @@ func (g *Gen) genDeepcopyProgram(prefix string, npk int, arrayRefs bool) ([]dcPk
 				tagLine = "// +k8s:deepcopy-gen=true\n"
 				gen = true
 				d.classes["type-opt-in"] = true
+				if detached {
+					tagLine = "// +k8s:deepcopy-gen=true\n\n// " + name + " has its tag in a comment block of its own.\n"
+					d.classes["type-opt-in-detached"] = true
+				}
 			}
 			fmt.Fprintf(&b, "%stype %s struct {\n", tagLine, name)
 			for f, nf := 0, 1+g.R.Intn(5); f < nf; f++ {
